@@ -54,7 +54,8 @@ func runC05(c *core.Ctx) {
 	for k, v := range feats {
 		c.Count("feature_"+k, int64(v))
 	}
-	var okMut, errMut int64
+	var okMut, errMut, nq int64
+	nQuoted := nDocs / 4
 	c.Pool.ParFor(nDocs, func(w, i int) {
 		cs := cases[i]
 		for _, in := range []string{cs.r0, cs.r1} {
@@ -69,6 +70,20 @@ func runC05(c *core.Ctx) {
 			}
 		}
 		c.Seen(true, []byte(cs.r0))
+		// a limited parse in between (the limited and the unlimited entry point share no state)
+		if i%4 == 0 {
+			c.CheckCase(w, "pq", thm, []byte("1"), []byte(strconv.Itoa(1+i%7)), []byte(cs.r0))
+			c.CheckCase(w, "pq", thm, []byte("1"), []byte("0"), []byte(cs.r0))
+		}
+		// every word of the document written as a string literal with the same contents
+		if i < nQuoted {
+			for _, k := range gen.WordIndexes(cs.toks) {
+				qt := append([]gen.Tok(nil), cs.toks...)
+				qt[k] = gen.Quoted(qt[k], (i+k)%3 == 0)
+				c.CheckCase(w, "pq", thm, []byte("1"), []byte("0"), []byte(gen.Render(nil, qt, 0)))
+				atomic.AddInt64(&nq, 1)
+			}
+		}
 		m := c.Impl(w, "pq", []byte("1"), []byte("0"), []byte(cs.mut))
 		v, cur, none := c.Tie(w, "pq", m, []byte("1"), []byte("0"), []byte(cs.mut))
 		if v == core.Violation {
@@ -83,6 +98,7 @@ func runC05(c *core.Ctx) {
 	c.Evals += int64(nDocs) * 5
 	c.Programs = int64(nDocs)
 	c.Count("generated_documents", int64(nDocs))
+	c.Count("words_written_as_string_literals", nq)
 	c.Count("mutants_accepted", okMut)
 	c.Count("mutants_rejected", errMut)
 	for i := 0; i < 3; i++ {
